@@ -194,6 +194,10 @@ def plan(files, rng, project_display, proc_internals, hide_undoc, pulled):
                     vis = sel.shown(acc, udisp, it.doc)
                     nm = it.name.lower()
                     page = f"interface/{nm}.html" if re.match(r"^\w+$", nm) else None
+                    if nm in {t.name.lower() for t in u.types}:
+                        # a constructor is rendered with its type and takes the type's accessibility: not judged here
+                        ent(upath + f"/interface:{it.name}", it.doc, "either", "interface", None, upage)
+                        continue
                     ent(upath + f"/interface:{it.name}", it.doc, "show" if vis else "hide", "interface", page if vis else None, upage)
                 else:
                     k = "absinterface" if it.kind == "abstract" else "ifacebody"
